@@ -295,3 +295,30 @@ def string_length_of_context_item(a: int, b: int, s: str) -> bool:
     if (r[0] if isinstance(r, list) else r) != la:
         return False
     return ev(T['strlen_mix'], a=a, b=b, s=s) == [la, la, len(s), len(s), lb, lb]
+
+
+T.update(parse_all({'sub_inf2': 'substring($s, $x)', 'sub_inf3': 'substring($s, $x, $y)'}))
+_INF = float('inf')
+_SPECIAL = (_INF, -_INF, float('nan'))
+
+
+_ARGV = (_INF, -_INF, float('nan'), -1.0, 0.0, 2.0, 5.0)
+_SUBJ = ('', 'a', 'abc', '12345')
+
+
+@ob(budget=200, bound='s from 4 strings; start and length from {+INF, -INF, NaN, -1, 0, 2, 5} with at least one of them not finite (indices chosen by the '
+                      'solver, values concrete on each path): substring follows the F&O definition with IEEE comparisons (from -INF without '
+                      'length: the whole string; -INF + INF is NaN: empty)',
+    funcs=['elementpath/xpath1/_xpath1_functions.py:evaluate__substring'])
+def substring_infinite_arguments(si: int, xi: int, yi: int) -> bool:
+    """
+    pre: 0 <= si <= 3 and 0 <= xi <= 6 and 0 <= yi <= 6 and (xi <= 2 or yi <= 2)
+    post: _
+    """
+    s = _SUBJ[[k for k in range(4) if k == si][0]]
+    x = _ARGV[[k for k in range(7) if k == xi][0]]
+    y = _ARGV[[k for k in range(7) if k == yi][0]]
+    want2 = ''.join(c for p, c in enumerate(s, 1) if x <= p)
+    end = x + y
+    want3 = ''.join(c for p, c in enumerate(s, 1) if x <= p and p < end)
+    return ev(T['sub_inf2'], s=s, x=x) == [want2] and ev(T['sub_inf3'], s=s, x=x, y=y) == [want3]
